@@ -4,6 +4,7 @@ import (
 	"fmt"
 	"os"
 
+	"verif/checks/c04"
 	"verif/checks/c10"
 	"verif/checks/c13"
 	"verif/checks/c14"
@@ -13,6 +14,9 @@ import (
 )
 
 var checks = map[string]func(){
+	"C04": c04.Main,
+	"C04S": c04.SchedOnlyMain,
+	"C04R": c04.SchedReplayMain,
 	"C10": c10.Main,
 	"C13": c13.Main,
 	"C14": c14.Main,
